@@ -518,6 +518,29 @@ pub fn rngfaults<S: MlDsa>(seed: u64, nsweeps: usize, out: &mut Out) {
             let _ = w.dudect(&p.bytes(64), f.clone(), at);
         }
     }
+    // the identity of the reported error is the caller's business: OS-style codes (EPERM, EINTR, EIO, EAGAIN, the largest), the
+    // generator-internal and custom ranges, each as a single failing request and as a generator that keeps failing
+    {
+        use std::sync::atomic::Ordering::Relaxed;
+        let codes = [1u32, 4, 5, 11, 35, i32::MAX as u32, (1u32 << 31) + 1, (1u32 << 31) + (1 << 30), u32::MAX];
+        for (ci, &code) in codes.iter().enumerate() {
+            for persists in [false, true] {
+                crate::util::ERR_CODE.store(code, Relaxed);
+                crate::util::ERR_PERSISTS.store(persists, Relaxed);
+                for f in [Fault::ErrBefore, Fault::ErrAfter(16)] {
+                    let d = p.arr32();
+                    let _ = w.keygen_rng(&d, f.clone());
+                    let mode = MODES[(ci + persists as usize) % MODES.len()];
+                    let d = p.arr32();
+                    if let Some(sig) = w.sign(hs, b"rng-code", b"c", "pure", &d, f.clone()) { let _ = w.verify(hp, b"rng-code", b"c", "pure", &sig); }
+                    if mode != "pure" { let d = p.arr32(); if let Some(sig) = w.sign(hs, b"rng-code", b"c", mode, &d, f.clone()) { let _ = w.verify(hp, b"rng-code", b"c", mode, &sig); } }
+                    for at in [0usize, 1] { let _ = w.dudect(&p.bytes(64), f.clone(), at); }
+                }
+            }
+        }
+        crate::util::ERR_CODE.store(0, Relaxed);
+        crate::util::ERR_PERSISTS.store(false, Relaxed);
+    }
     // an error must not leave a usable partial result: after a failed keygen/sign the next healthy call works
     let d = p.arr32();
     let _ = w.keygen_rng(&d, Fault::None);
